@@ -736,3 +736,132 @@ func TestVerif_C15_ClaimedProvisionalSurvives(t *testing.T) {
 		}
 	})
 }
+
+// TestVerif_C15_TwoLocalAddresses: a wildcard / multi-homed listener with the same ufrag registered on two
+// local addresses.  Closing (and re-opening) the handle of one address never disturbs the other: a client that
+// connects to the still-held (ufrag, address) reaches that very packet connection and gets its reply.
+func TestVerif_C15_TwoLocalAddresses(t *testing.T) {
+	st := vfNewStats(t)
+	lf := logging.NewDefaultLoggerFactory()
+	lf.DefaultLogLevel = logging.LogLevelDisabled
+	rapid.Check(t, func(rt *rapid.T) {
+		ln := newC15Listener()
+		mux := NewTCPMuxDefault(TCPMuxParams{Listener: ln, Logger: lf.NewLogger("verif"), ReadBufferSize: 64, FirstStunBindTimeout: time.Hour, AliveDurationForConnFromStun: time.Hour})
+		var clients []*c15Client
+		defer func() {
+			for _, c := range clients {
+				_ = c.conn.Close()
+			}
+			done := make(chan struct{})
+			go func() { _ = mux.Close(); close(done) }()
+			select {
+			case <-done:
+			case <-time.After(10 * time.Second):
+			}
+		}()
+		locals := []net.IP{net.IPv4(10, 0, 0, 1), net.IPv4(10, 0, 0, 2)}
+		ufrags := []string{"ua", "ub"}[:rapid.IntRange(1, 2).Draw(rt, "ufrags")]
+		type key struct {
+			u string
+			l int
+		}
+		handles := map[key]net.PacketConn{}
+		under := map[key]*tcpPacketConn{}
+		for _, u := range ufrags {
+			for l := range locals {
+				h, err := mux.GetConnByUfrag(u, false, locals[l])
+				if err != nil {
+					rt.Fatalf("harness: %v", err)
+				}
+				handles[key{u, l}] = h
+				mux.mu.Lock()
+				under[key{u, l}], _ = mux.getConn(u, false, locals[l])
+				mux.mu.Unlock()
+			}
+		}
+		port := 31000
+		var hist []string
+		closedOne := false
+		nOps := rapid.IntRange(2, 12).Draw(rt, "nOps")
+		for i := 0; i < nOps; i++ {
+			u := ufrags[rapid.IntRange(0, len(ufrags)-1).Draw(rt, "ufrag")]
+			l := rapid.IntRange(0, 1).Draw(rt, "local")
+			k := key{u, l}
+			switch rapid.SampledFrom([]string{"connect", "connect", "close", "reopen"}).Draw(rt, "op") {
+			case "close":
+				if handles[k] == nil {
+					continue
+				}
+				_ = handles[k].Close()
+				handles[k] = nil
+				closedOne = true
+				hist = append(hist, fmt.Sprintf("close(%s@%s)", u, locals[l]))
+				// let the mux's close watcher finish its removal
+				for d := time.Now().Add(5 * time.Second); time.Now().Before(d); {
+					mux.mu.Lock()
+					_, still := mux.getConn(u, false, locals[l])
+					mux.mu.Unlock()
+					if !still {
+						break
+					}
+					time.Sleep(50 * time.Microsecond)
+				}
+			case "reopen":
+				if handles[k] != nil {
+					continue
+				}
+				h, err := mux.GetConnByUfrag(u, false, locals[l])
+				if err != nil {
+					st.Fail(rt, "C15/two-locals/reopen-failed", "GetConnByUfrag(%s, %s) after an earlier close: %v (%s)", u, locals[l], err, strings.Join(hist, "; "))
+
+					continue
+				}
+				handles[k] = h
+				mux.mu.Lock()
+				under[k], _ = mux.getConn(u, false, locals[l])
+				mux.mu.Unlock()
+				hist = append(hist, fmt.Sprintf("reopen(%s@%s)", u, locals[l]))
+			case "connect":
+				if handles[k] == nil {
+					continue // (clients of an unregistered ufrag get a provisional connection: the main test's business)
+				}
+				mux.mu.Lock()
+				cur, ok := mux.getConn(u, false, locals[l])
+				mux.mu.Unlock()
+				if !ok || cur != under[k] {
+					st.Fail(rt, "C15/two-locals/held-connection-replaced", "the packet connection of %s@%s is no longer the one its open handle was given (registered=%v) (%s)", u, locals[l], ok, strings.Join(hist, "; "))
+
+					continue
+				}
+				a, b := net.Pipe()
+				port++
+				remote := &net.TCPAddr{IP: net.IPv4(198, 51, 100, 9), Port: port}
+				cl := &c15Client{id: len(clients), conn: a, remote: remote, kind: "valid", ufrag: u, done: make(chan struct{})}
+				go cl.reader()
+				clients = append(clients, cl)
+				ln.ch <- &c15Conn{Conn: b, local: &net.TCPAddr{IP: locals[l], Port: 8443}, remote: remote}
+				msg := c15StunBinding(u+":peer", true, stun.MethodBinding)
+				_ = cl.conn.SetWriteDeadline(time.Now().Add(20 * time.Second))
+				_, _ = cl.conn.Write(c15Frame(msg))
+				hist = append(hist, fmt.Sprintf("connect(%s@%s from %s)", u, locals[l], remote))
+				_ = handles[k].SetReadDeadline(time.Now().Add(5 * time.Second))
+				buf := make([]byte, 2000)
+				n, from, err := handles[k].ReadFrom(buf)
+				if err != nil || from.String() != remote.String() || !bytes.Equal(buf[:n], msg) {
+					st.Fail(rt, "C15/two-locals/first-message-not-delivered", "client of %s@%s: the held handle read n=%d from=%v err=%v, want the client's first message from %s (%s)",
+						u, locals[l], n, from, err, remote, strings.Join(hist, "; "))
+
+					continue
+				}
+				if _, err := handles[k].WriteTo([]byte("reply"), remote); err != nil {
+					st.Fail(rt, "C15/two-locals/reply-failed", "reply to %s over %s@%s: %v (%s)", remote, u, locals[l], err, strings.Join(hist, "; "))
+				}
+			}
+		}
+		desc := strings.Join(hist, "; ")
+		st.Record(vfHashStr(desc), closedOne, fmt.Sprintf("closed-one-address:%v", closedOne))
+		if closedOne && st.WantSample() {
+			st.Sample(func() string { return desc })
+		}
+	})
+}
